@@ -9,6 +9,7 @@ pub mod c04;
 pub mod c05;
 pub mod c06;
 pub mod c07;
+pub mod c08;
 pub mod c09;
 pub mod c10;
 pub mod c11;
@@ -25,6 +26,7 @@ pub fn dispatch(ctx: &mut Ctx) -> bool {
 		"C05" => c05::run(ctx),
 		"C06" => c06::run(ctx),
 		"C07" => c07::run(ctx),
+		"C08" => c08::run(ctx),
 		"C09" => c09::run(ctx),
 		"C10" => c10::run(ctx),
 		"C11" => c11::run(ctx),
@@ -48,6 +50,7 @@ pub fn confirm(key: &str) -> Option<Option<String>> {
 		"C05" => c05::confirm(key),
 		"C06" => c06::confirm(key),
 		"C07" => c07::confirm(key),
+		"C08" => c08::confirm(key),
 		"C09" => c09::confirm(key),
 		"C10" => c10::confirm(key),
 		"C11" => c11::confirm(key),
